@@ -144,6 +144,12 @@ def scenarios(tier, seed=0):
         sc = mk("10/15", 0, D(2001, 10, 12), D(2003, 6, 30) if not off else D(2002, 6, 30), off, thermal=True, word="steady16")
         sc["thermal_crop"] = "WheatGDD"
         out.append(sc)
+    # planting / harvest dates written without zero padding ('5/1', '1/5', '5/12'): month first, whatever the day
+    for off in (False, True):
+        for planting, harvest in (("5/1", None), ("1/5", None), ("5/1", "5/12"), ("5/1", "6/2"), ("12/20", "1/9")):
+            L = 18
+            mm, dd = (int(x) for x in planting.split("/"))
+            out.append(mk(planting, L, D(2001, mm, dd) - dt.timedelta(days=3), D(2003, mm, dd) + dt.timedelta(days=60), off, harvest=harvest))
     # calendar crops CONVERTED to thermal time (SwitchGDD=1): the thermal maturity is the mean over the window's seasons of the degree
     # days accumulated up to the calendar maturity day - computed here by the independent degree-day model from the configured weather;
     # words with nights above the upper temperature ("scorch"), nights below the base temperature ("coolnights"), and "mix"
